@@ -221,6 +221,7 @@ impl Property for C14 {
             expect: serde_json::json!({ "episodes": kinds }),
             shape: h.0,
             est_len: 100,
+            min_quantum: 0,
         }
     }
     fn monitor(&self, _scn: &Scenario) -> Box<dyn Monitor + Send> {
@@ -240,6 +241,7 @@ impl Property for C14 {
             expect: serde_json::json!({}),
             shape: 1,
             est_len: 60,
+            min_quantum: 0,
         };
         let spec = super::reference_spec(&scenario, 1);
         vec![super::Pinned { key: "C14/never-closed/owner-never-awaited", what: "owner terminates without being awaited", scenario, spec }]
